@@ -60,9 +60,9 @@ def powNat (q : Rat) : Nat → Rat
 
 def maxExponent : Nat := 64
 
-/-- `b ** e` for an integral exponent of small magnitude; `none` otherwise -/
+/-- `b ** e` for an integral exponent of small magnitude and a base below 2^64; `none` otherwise -/
 def powQ (b e : Rat) : Option Rat :=
-  if e.isInt && e.num.natAbs ≤ maxExponent then
+  if e.isInt && e.num.natAbs ≤ maxExponent && b.num.natAbs < 18446744073709551616 && b.den < 18446744073709551616 then
     if 0 ≤ e.num then some (powNat b e.num.natAbs)
     else if b = 0 then none else some (1 / powNat b e.num.natAbs)
   else none
